@@ -23,6 +23,7 @@ GUARDS = [
     (r"textStableC S = true", "(family_textStableC _ {hS})"),
     (r"S\.closableB = true", "(family_closable _ {hS})"),
     (r"PM\.FromDom\.leafOkB S = true", "(family_leafOk _ {hS})"),
+    (r"PM\.FromDom\.textStableB S = true", "(family_textStable _ hS)"),
     (r"C01\.TextStable S", "(textLoop_of_B _ (family_textLoop _ {hS})).stable"),
     (r"LeafEmpty S", "(leafEmpty_of_B (family_leafEmpty _ {hS}))"),
     (r"LiveSchema S", "(liveSchema_of_ok " + OK + ")"),
@@ -52,7 +53,13 @@ TARGETS = {
             "inStep_invariant", "delete_emits_wf", "deleteRange_emits_wf", "insertInline_emits_wf",
             "delete_emits_valid_payload", "deleteRange_emits_valid_payload", "delete_emits_payloadValid",
             "deleteRange_emits_payloadValid", "insertInline_emits_valid_payload", "payloadInv_step",
-            "fit_emits_valid_payload_of_inv"],
+            "fit_emits_valid_payload_of_inv",
+            "delete_emitOK", "delete_valid", "deleteRange_emitOK", "deleteRange_valid", "delete_total_valid",
+            "deleteRange_total_valid", "replaceRange_valid_delete", "insertInline_emitOK_partial",
+            "fit_emitOK_of_inv_partial", "insertInline_valid_partial", "insertInline_total_valid_partial",
+            "replace_valid_of_inv_partial", "replaceRange_valid_inline_partial", "replaceRange_valid_of_inv_partial",
+            "replaceRangeWith_valid_of_inv_partial", "replaceRangeWith_valid_inline_partial", "aroundPayload_of_norm",
+            "insertInline_valid_of_norm", "replace_valid_of_inv_of_norm"],
     "C12": ["canJoin_join_applies", "liftTarget_lift_applies_flat", "liftTarget_lift_applies", "insertPoint_insert_applies",
             "dropPoint_drop_applies_closed", "joinPoint_join_applies", "insertPoint_insert_text_applies",
             "insertPoint_insert_marked_top"],
